@@ -155,4 +155,45 @@ def observe (ctx : Ctx) (lim : Limits) (maxLen : Nat) (prev : Option Outcome) (v
   let v' := match prev with | some p => preBuild ctx p v | none => v
   observationOf ctx lim maxLen v'.staged inflight logChoice condChoice v'.hist si
 
+
+/-! ### the shuffled-id cache of `stagedResultSorter` (state the hook keeps ACROSS rounds)
+
+`canonical` above is stateless: it shuffles every work id with the round's source.  The code memoises the shuffled ids in
+`stagedResultSorter` and starts over when the source changes.  `Sorter` mirrors that state machine; Props/C08 proves that
+it refines the stateless order from every coherent state (`sorter_refines_canonical`), i.e. that the memo is invisible. -/
+
+/-- `stagedResultSorter`: `lastRandSrc` and `shuffledIDs` (work id ↦ shuffled id; a Go map, here an association list) -/
+structure Sorter where
+  lastSrc : String
+  cache : List (String × String)
+
+/-- `shuffledIDs[w]` with the comma-ok form -/
+def Sorter.get (s : Sorter) (w : String) : Option String := (s.cache.find? (fun e => e.1 == w)).map (·.2)
+
+/-- `if !bytes.Equal(sorter.lastRandSrc[:], rSrc[:]) { lastRandSrc = rSrc; shuffledIDs = make(map) }` -/
+def Sorter.reset (s : Sorter) (src : String) : Sorter :=
+  if !(s.lastSrc == src) then { lastSrc := src, cache := [] } else s
+
+/-- loop body: `if _, ok := shuffledIDs[w]; !ok { shuffledIDs[w] = random.ShuffleString(w, rSrc) }` -/
+def Sorter.step (shuffle : String → String → String) (src : String) (st : Sorter) (w : String) : Sorter :=
+  if !(st.get w).isSome then { st with cache := (w, shuffle w src) :: st.cache } else st
+
+/-- `updateShuffledIDs(results, rSrc)` -/
+def Sorter.update (shuffle : String → String → String) (s : Sorter) (src : String) (wids : List String) : Sorter :=
+  wids.foldl (Sorter.step shuffle src) (s.reset src)
+
+/-- the `less` function handed to `sort.Slice`: `shuffledIDs[a.WorkID] < shuffledIDs[b.WorkID]` (a missing key reads "") -/
+def Sorter.less (s : Sorter) (a b : CheckResult) : Bool :=
+  decide ((s.get a.workID).getD "" < (s.get b.workID).getD "")
+
+/-- `orderResults(results, rSrc)`: new sorter state and the ordered candidates -/
+def Sorter.order (shuffle : String → String → String) (s : Sorter) (src : String) (rs : List CheckResult) :
+    Sorter × List CheckResult :=
+  let s' := s.update shuffle src (rs.map (·.workID))
+  (s', rs.mergeSort (fun a b => !s'.less b a))
+
+/-- every memoised id was computed with the source the cache is labelled with -/
+def Sorter.Coherent (shuffle : String → String → String) (s : Sorter) : Prop :=
+  ∀ e ∈ s.cache, e.2 = shuffle e.1 s.lastSrc
+
 end AutoVerif.C08
